@@ -408,7 +408,7 @@ func init() {
 		"(*github.com/jackc/pgx/v5/pgtype.Map).Encode":       modelPgEncode,
 		"(*github.com/jackc/pgx/v5/pgtype.Map).TypeForOID":   modelPgTypeForOID,
 		"(*github.com/jackc/pgx/v5/pgtype.Map).PlanEncode":   modelPgPlanEncode,
-		"(*github.com/jackc/pgx/v5/pgtype.Map).RegisterType": noop,
+		"(*github.com/jackc/pgx/v5/pgtype.Map).RegisterType": modelPgRegisterType,
 
 		// ---- crypto/tls ----
 		"crypto/tls.Server": modelTLSServer,
